@@ -104,6 +104,17 @@ def run(rep, tier, rng):
                 labels.append("degenerate parts")
                 cases.append(C.read_case(req, shp, None, OPS_NOIDX))
                 labels.append("degenerate parts")
+    # valid records with tens of thousands of parts (empty ones suffice), with and without the optional M block: depth
+    # of any per-part recursion, quadratic per-part work (implementation only: the model reader is quadratic here)
+    deep = []
+    for code, nparts in ((23, 240000), (15, 240000), (31, 120000), (5, 60000)) + (((13, 240000), (25, 240000)) if tier == "thorough" else ()):
+        rec = F.gen_rec(rng, code, "finite", lens=[0] * nparts)
+        if code in refesri.HAS_M:
+            rec["mrange"], rec["ms"] = [0, 0], []
+        model = {"type": code, "box": [0] * 8, "records": [{"num": 1, "shape": rec}, {"num": 2, "shape": F.gen_rec(rng, code, "finite", lens=[2])}]}
+        shp, shx = refesri.encode_shp(model), refesri.encode_shx(model)
+        deep.append(C.read_case(-1, shp, None, [("it", -1)]))
+        deep.append(C.read_case(code, shp, shx, [("nth", 0), ("it", -1)]))
     for _ in range(300 if tier == "thorough" else 60):
         tail = bytes(rng.getrandbits(8) for _ in range(rng.randint(0, 300)))
         data = struct.pack(">i", 9994) + tail
@@ -128,6 +139,16 @@ def run(rep, tier, rng):
                        "non-trivial = distinct case" % nmodels)
     impl = stages.correspondence(rep, "read", dev, cases, "read(malformed)")
     nfail = 0
+    dimpl = sfv.run_impl(dev, deep) + sfv.run_impl(rel, deep)
+    for c, r in zip(deep + deep, dimpl):
+        rep.count_case((tuple(c[:6]), len(c), tuple(r[:4])))
+        if r in ([-2], [2], [-5]) or r[:1] != [0]:
+            nfail += 1
+            rep.violation({"kind": "oracle", "what": "a valid record of tens of thousands of parts makes the reader %s"
+                           % ("die (abort / stack overflow)" if r == [-2] else "hang" if r == [-5] else "fail or panic: %r" % (r[:4],)),
+                           "case_kind": "read", "case_prefix": c[:12], "parts": "see lib/props/C07.py: deep"})
+            break
+    rep.cov["records_of_tens_of_thousands_of_parts"] = len(deep)
     err_kinds = {}
     for c, r, lab in zip(cases, impl, labels):
         msg = None
